@@ -31,6 +31,7 @@ type ledger struct {
 	Property    string                 `json:"property"`
 	Obligations map[string]ledgerEntry `json:"obligations"`
 	Complete    map[string]bool        `json:"complete_functions"`
+	Groups      map[string]bool        `json:"complete_groups"` // fn#kind and fn#post:N groups fully discharged
 	Undecided   []string               `json:"undecided_at_baseline"`
 }
 
@@ -74,6 +75,8 @@ func main() {
 	case "check", "baseline", "dump":
 		claimEverything = *claimAll
 		os.Exit(runCheck(cmd, *prop, *tier, *fnFilter, *oblFilter, *verbose))
+	case "selftest":
+		os.Exit(runSelftest(*prop, *fnFilter, *verbose))
 	case "ssa":
 		w, err := loadWorld(fs.Args()[:1], nil)
 		if err != nil {
@@ -251,9 +254,38 @@ func oblOK(o *obligation) bool {
 
 const claimMs = 4000
 
+// groupKey: obligations are also claimed by group, so that an edit which changes the
+// source text an obligation is named after (a different return expression, a different
+// index expression) is still checked when the whole group was discharged at baseline.
+// Groups: fn#post:N (all return sites of one ensures clause), fn#<kind> otherwise.
+func groupKey(o *obligation) string {
+	name := o.name
+	i := strings.Index(name, "#")
+	if i < 0 {
+		return name
+	}
+	rest := name[i+1:]
+	if strings.HasPrefix(rest, "post:") {
+		if j := strings.Index(rest, "@"); j >= 0 {
+			rest = rest[:j]
+		}
+		return name[:i+1] + rest
+	}
+	return name[:i+1] + o.kind
+}
+
+// isClaimed decides whether an obligation generated now belongs to the claimed set.
+func (lg *ledger) isClaimed(o *obligation) bool {
+	if _, ok := lg.Obligations[o.name]; ok {
+		return true
+	}
+	return lg.Complete[o.fn] || lg.Groups[groupKey(o)]
+}
+
 func writeBaseline(prop string, rr *runResult, verbose bool) int {
-	lg := ledger{Property: prop, Obligations: map[string]ledgerEntry{}, Complete: map[string]bool{}}
+	lg := ledger{Property: prop, Obligations: map[string]ledgerEntry{}, Complete: map[string]bool{}, Groups: map[string]bool{}}
 	perFn := map[string][2]int{}
+	perGroup := map[string][2]int{}
 	for _, o := range rr.obls {
 		if o.expect == "sat" {
 			if o.status == "unsat" {
@@ -263,17 +295,27 @@ func writeBaseline(prop string, rr *runResult, verbose bool) int {
 		}
 		c := perFn[o.fn]
 		c[0]++
+		gk := groupKey(o)
+		gc := perGroup[gk]
+		gc[0]++
 		if o.status == "unsat" && o.ms <= claimMs {
 			lg.Obligations[o.name] = ledgerEntry{o.solver, o.ms}
 			c[1]++
+			gc[1]++
 		} else {
 			lg.Undecided = append(lg.Undecided, fmt.Sprintf("%s [%s %dms] %s", o.name, o.status, o.ms, o.src))
 		}
 		perFn[o.fn] = c
+		perGroup[gk] = gc
 	}
 	for fn, c := range perFn {
 		if c[0] == c[1] {
 			lg.Complete[fn] = true
+		}
+	}
+	for gk, c := range perGroup {
+		if c[0] == c[1] {
+			lg.Groups[gk] = true
 		}
 	}
 	sort.Strings(lg.Undecided)
